@@ -103,11 +103,53 @@ func (s *Session) AuthMechanisms() []string {
 }
 
 func (s *Session) Auth(mech string) (sasl.Server, error) {
-	return s.endp.saslAuth.CreateSASL(mech, s.connState.RemoteAddr, func(identity string, data auth.ContextData) error {
-		s.connState.AuthUser = identity
-		s.connState.AuthPassword = data.Password
-		return nil
-	}), nil
+	return saslServer{
+		Server: s.endp.saslAuth.CreateSASL(mech, s.connState.RemoteAddr, func(identity string, data auth.ContextData) error {
+			s.connState.AuthUser = identity
+			s.connState.AuthPassword = data.Password
+			return nil
+		}),
+		endp: s.endp,
+	}, nil
+}
+
+// saslServer converts errors of the SASL exchange into SMTP replies. go-smtp
+// sends "454 4.7.0" with the text of the error for anything that is not an
+// smtp.SMTPError.
+type saslServer struct {
+	sasl.Server
+	endp *Endpoint
+}
+
+func (srv saslServer) Next(response []byte) ([]byte, bool, error) {
+	challenge, done, err := srv.Server.Next(response)
+	if err != nil {
+		failedLogins.WithLabelValues(srv.endp.name).Inc()
+		return challenge, done, authErrReply(err)
+	}
+	return challenge, done, nil
+}
+
+func authErrReply(err error) *smtp.SMTPError {
+	if exterrors.IsTemporary(err) {
+		return &smtp.SMTPError{
+			Code:         454,
+			EnhancedCode: smtp.EnhancedCode{4, 7, 0},
+			Message:      "Temporary authentication failure",
+		}
+	}
+	if errors.Is(err, auth.ErrUnsupportedMech) {
+		return &smtp.SMTPError{
+			Code:         504,
+			EnhancedCode: smtp.EnhancedCode{5, 5, 4},
+			Message:      "Unsupported authentication mechanism",
+		}
+	}
+	return &smtp.SMTPError{
+		Code:         535,
+		EnhancedCode: smtp.EnhancedCode{5, 7, 8},
+		Message:      "Invalid credentials",
+	}
 }
 
 func (s *Session) Reset() {
